@@ -23,8 +23,14 @@ def run_rules(prop, root):
     mod = importlib.import_module('sa.rules.' + prop.lower())
     r = repomod.load(root)
     results = mod.rules(r)
-    for res in results:
-        res.check_floor()
+    # A rule that matched fewer instances than confirmed by hand means "the code no longer has the shape this rule reads":
+    # an analysis error - unless a rule already reports a violation that is not a listed finding.  A changed tree that both
+    # breaks a rule and drops an instance is reported as the violation it is, not as "cannot judge".
+    known, _ = core.load_known_findings()
+    unlisted = any((not i.ok) and (prop, i.rule, i.key) not in known for res in results for i in res.instances)
+    if not unlisted:
+        for res in results:
+            res.check_floor()
     return mod, r, results
 
 
